@@ -66,7 +66,11 @@ class CounterModel(object):
             solver_ = h.solver; fin = solver_.Finalize; model_ = self
             def Finalize():
                 r_ = fin()
-                if h.started or h.in_solve: model_.fin_inside = True      # (counts as 'finalized' for what runs AFTER it)
+                # (counts as 'finalized' for what runs AFTER it -- only where the unchanged design finalizes: Step's own clean-up after
+                # Terminated(), or a Set* call; a Finalize() reached from anywhere else is not the history the listed finding describes)
+                import sys as _sys
+                if (h.started or h.in_solve) and _sys._getframe(1).f_code.co_name in ('Step', '_update_objective'):
+                    model_.fin_inside = True
                 return r_
             try:
                 solver_.Finalize = Finalize; solver_._c04_fin_wrapped = True
